@@ -976,3 +976,153 @@ Proof.
 Qed.
 
 End Cycle.
+
+(* ------------------------------------------------------------------ *)
+(* The structural pass followed by the evaluation pass                  *)
+
+Lemma in_concat_map {A B} (g : A -> list B) l y : In y (concat (map g l)) <-> exists x, In x l /\ In y (g x).
+Proof.
+  induction l as [|a r IH]; simpl; [split; [tauto|intros [x [[] _]]]|].
+  rewrite in_app_iff, IH. split.
+  - intros [H|[x [H1 H2]]]; [exists a; auto|exists x; auto].
+  - intros [x [[->|H1] H2]]; [auto|right; exists x; auto].
+Qed.
+
+Lemma nth_opt_repeat {A} (v : A) n p : p < n -> nth_opt p (repeat v n) = Some v.
+Proof. revert p. induction n; intros p H; [lia|]. destruct p; simpl; [reflexivity|]. apply IHn. lia. Qed.
+
+Lemma agg_src_presence cf L combs combs' a :
+  (forall p, present combs' p = present combs p) -> agg_src cf L combs' a = agg_src cf L combs a.
+Proof.
+  intros H. destruct a as [|i|p]; simpl; try reflexivity.
+  specialize (H p). unfold present in H.
+  destruct (nth_opt p combs') as [[c'|]|], (nth_opt p combs) as [[c|]|]; try reflexivity; discriminate.
+Qed.
+
+Lemma interval_bound k j u : j <= k -> u < 2 ^ (k - j) -> (u + 1) * 2 ^ j <= 2 ^ k.
+Proof.
+  intros H1 H2. rewrite (pow2_split k j H1). rewrite (Nat.mul_comm (2 ^ j)). apply Nat.mul_le_mono_r. lia.
+Qed.
+
+Section Tree.
+Variable f : Z -> Z -> Z.
+Variable cf : cfg.
+Hypothesis f_assoc : forall a b c, f (f a b) c = f a (f b c).
+Hypothesis Hlift : c_lifted cf = true.
+
+(* The positions the evaluation pass visits, as a set: present, and either structural or on the
+   path of a leaf whose value ticked (or the root). *)
+Definition visited (k : nat) (combs1 : list (option comb)) (spos : list nat) (dm : list nat) (extra : list nat) : list nat :=
+  sort_desc_unique (filter (present combs1) spos ++
+                    concat (map (live_path (2 ^ k) combs1) dm) ++ extra).
+
+(* Partial rebuild (capacity unchanged): what was right and is untouched stays right; the presence
+   of every combine point is what the new live count asks for. *)
+Lemma partial_rebuild_ok st' k L vals L' vals' combs sleaves dm combs1 cr rt :
+  leaf_vals st' L' vals' -> length vals = length L ->
+  length L <= 2 ^ k -> length L' <= 2 ^ k ->
+  wf_presence cf L k combs ->
+  (forall p, p < internals (2 ^ k) -> present combs p = true -> good f cf L vals k combs p) ->
+  (forall i, ~ In i sleaves -> nth_opt i L' = nth_opt i L) ->
+  (forall i, ~ In i sleaves -> ~ In i dm -> nth_opt i vals' = nth_opt i vals) ->
+  let spos := sort_desc_unique (concat (map (leaf_path (2 ^ k) (length combs)) sleaves)) in
+  fold_left (phase1_at cf (2 ^ k) (length L')) spos (combs, [], []) = (combs1, cr, rt) ->
+  wf_presence cf L' k combs1 /\
+  (forall p, p < internals (2 ^ k) -> present combs1 p = true ->
+             ~ In p (visited k combs1 spos dm []) -> good f cf L' vals' k combs1 p).
+Proof.
+  intros Hvals' Hlv Hcap Hcap' [Hlen Hpres] Hgood HL Hv spos Hph.
+  destruct (phase1_spec cf (2 ^ k) (length L') spos combs [] [] combs1 cr rt Hph) as [P1 [P2 [P3 P4]]].
+  assert (Hlv' : length vals' = length L') by (destruct Hvals'; assumption).
+  (* a structural leaf below p puts p among the structural positions *)
+  assert (Hcover : forall j u i, 1 <= j -> j <= k -> u < 2 ^ (k - j) ->
+             u * 2 ^ j <= i -> i < (u + 1) * 2 ^ j -> In i sleaves -> In (pos k j u) spos).
+  { intros j u i A1 A2 A3 A4 A5 A6. unfold spos. apply sort_desc_unique_in. apply in_concat_map.
+    exists i. split; [exact A6|]. rewrite Hlen. apply leaf_path_iff; try assumption;
+      pose proof (interval_bound k j u A2 A3); lia. }
+  assert (Hsamelen : forall j u i, 1 <= j -> j <= k -> u < 2 ^ (k - j) -> ~ In (pos k j u) spos ->
+             u * 2 ^ j <= i -> i < (u + 1) * 2 ^ j -> (i < length L' <-> i < length L)).
+  { intros j u i A1 A2 A3 A4 A5 A6.
+    assert (Hni : ~ In i sleaves) by (intros Hc; apply A4; apply (Hcover j u i); assumption).
+    specialize (HL i Hni). rewrite !nth_opt_length. rewrite HL. tauto. }
+  split.
+  - split; [lia|]. intros p Hp.
+    destruct (in_dec Nat.eq_dec p spos) as [Hin|Hnin].
+    + apply P3; [exact Hin|lia].
+    + unfold present. rewrite (P2 p Hnin). fold (present combs p). rewrite (Hpres p Hp).
+      destruct (pos_coords k p Hp) as [j [u [A1 [A2 [A3 ->]]]]].
+      pose proof (pow2_half j A1) as Hh. pose proof (pow2_pos (j - 1)) as Hp1.
+      apply eq_true_iff_eq.
+      rewrite (needed_iff cf L k Hcap j u A1 A2 A3), (needed_iff cf L' k Hcap' j u A1 A2 A3).
+      assert (Hmid : u * 2 ^ j + 2 ^ (j - 1) < length L' <-> u * 2 ^ j + 2 ^ (j - 1) < length L).
+      { apply (Hsamelen j u); try assumption; lia. }
+      assert (Hone : forall n, pos k j u = 0 -> (length L' = n <-> length L = n)).
+      { intros n Hz.
+        assert (Hjk : j = k /\ u = 0).
+        { unfold pos in Hz. pose proof (pow2_pos (k - j)).
+          destruct (Nat.eq_dec j k) as [|Hne]; [split; [assumption|lia]|].
+          pose proof (pow2_ge2 (k - j) ltac:(lia)). lia. }
+        destruct Hjk as [-> ->].
+        assert (Hall : forall i, i < 2 ^ k -> (i < length L' <-> i < length L)).
+        { intros i Hi. apply (Hsamelen k 0); try assumption; try lia. }
+        assert (length L' = length L).
+        { destruct (Nat.lt_trichotomy (length L') (length L)) as [Hc|[Hc|Hc]]; [|assumption|].
+          - assert (length L' < length L') by (apply (Hall (length L')); lia). lia.
+          - assert (length L < length L) by (apply (Hall (length L)); lia). lia. }
+        lia. }
+      split; (intros [[Z1 [Z2 Z3]]|Hn]; [left; repeat split; try assumption; apply (Hone 1 Z1); assumption|right; tauto]).
+  - intros p Hp Hpr Hnv.
+    assert (Hnsp : ~ In p spos).
+    { intros Hc. apply Hnv. unfold visited. apply sort_desc_unique_in. apply in_app_iff. left.
+      apply filter_In. split; assumption. }
+    assert (Hndm : forall i, In i dm -> ~ In p (leaf_path (2 ^ k) (length combs1) i)).
+    { intros i Hi Hc. apply Hnv. unfold visited. apply sort_desc_unique_in. apply in_app_iff. right.
+      apply in_app_iff. left. apply in_concat_map. exists i. split; [exact Hi|].
+      unfold live_path. apply filter_In. split; [exact Hc|]. exact Hpr. }
+    assert (Hold : present combs p = true).
+    { unfold present in *. rewrite <- (P2 p Hnsp). exact Hpr. }
+    apply (good_transfer f cf k L vals L' vals' combs combs1 p Hlv Hlv' Hp (P2 p Hnsp)).
+    + intros j u A1 A2 A3 -> i A4 A5.
+      assert (Hni : ~ In i sleaves) by (intros Hc; apply Hnsp; apply (Hcover j u i); assumption).
+      assert (Hnd : ~ In i dm).
+      { intros Hc. apply (Hndm i Hc). rewrite P1, Hlen. apply leaf_path_iff; try assumption;
+          pose proof (interval_bound k j u A2 A3); lia. }
+      split; [apply Hv; assumption|]. apply (Hsamelen j u); assumption.
+    + apply Hgood; assumption.
+Qed.
+
+(* Full rebuild (first publication or capacity growth): every position is structural. *)
+Lemma full_rebuild_ok k L' combs0 combs1 cr rt :
+  length combs0 = internals (2 ^ k) ->
+  fold_left (phase1_at cf (2 ^ k) (length L')) (down_from (length combs0)) (combs0, [], []) = (combs1, cr, rt) ->
+  wf_presence cf L' k combs1.
+Proof.
+  intros Hlen Hph.
+  destruct (phase1_spec cf (2 ^ k) (length L') _ combs0 [] [] combs1 cr rt Hph) as [P1 [P2 [P3 P4]]].
+  split; [lia|]. intros p Hp. apply P3; [apply down_from_in; lia|lia].
+Qed.
+
+(* The evaluation pass over the visited positions finishes the job. *)
+Lemma eval_visited st' k L' vals' combs1 E :
+  leaf_vals st' L' vals' -> length L' <= 2 ^ k -> desc_sorted E ->
+  wf_presence cf L' k combs1 ->
+  (forall p, p < internals (2 ^ k) -> present combs1 p = true -> ~ In p E -> good f cf L' vals' k combs1 p) ->
+  exists combs2 log w,
+    fold_left (eval_at f cf st' L' (2 ^ k)) E (combs1, [], []) = (combs2, log, w) /\
+    wf_presence cf L' k combs2 /\
+    (forall p, present combs2 p = present combs1 p) /\
+    (forall p, p < internals (2 ^ k) -> present combs2 p = true -> good f cf L' vals' k combs2 p).
+Proof.
+  intros Hvals Hcap Hs Hwf Hclean.
+  destruct (eval_loop f cf f_assoc Hlift st' L' vals' k Hvals Hcap E combs1 [] [] Hs Hwf)
+    as [combs2 [log [w [Hev [Hwf2 Hg2]]]]].
+  { intros p Hp Hnin Hpr. apply Hclean; assumption. }
+  exists combs2, log, w. split; [exact Hev|]. split; [exact Hwf2|]. split; [|exact Hg2].
+  intros p. destruct Hwf as [Hl1 Hp1]. destruct Hwf2 as [Hl2 Hp2].
+  destruct (Nat.lt_ge_cases p (internals (2 ^ k))) as [Hlt|Hge].
+  - rewrite Hp1, Hp2 by assumption. reflexivity.
+  - unfold present. assert (nth_opt p combs1 = None) by (apply nth_opt_none; lia).
+    assert (nth_opt p combs2 = None) by (apply nth_opt_none; lia). rewrite H, H0. reflexivity.
+Qed.
+
+End Tree.
